@@ -4,7 +4,8 @@ import SecsModel.Model.GemComm
 /-! Driver domain `gemcomm`.
 
 `gemcomm run <host|equipment> <commackReq> <sysChecked 0|1><commackGate 0|1> <user cbs s.f,s.f|-> <input>,<input>,…`
-inputs: `en dis sel lost t3 dly rx:<s>:<f>:<w>:<sys>:<commack|->`
+inputs: `en dis sel lost t3 dly rx:<s>:<f>:<w>:<sys>:<commack|->`, and `cfg` — the application changes a timer setting: not an
+input of the model (durations are not modelled), answered with the unchanged state and no output
 answer: `ok <step>;<step>;…` with `<step> = <COMM>/<link><t3Armed><delayArmed>/<queued count>:<out>+<out>…`
 -/
 namespace SecsModel.Drv.GemComm
@@ -12,8 +13,9 @@ open SecsModel SecsModel.Drv SecsModel.Spec.E30Comm SecsModel.Model.GemComm
 
 def parseNat (s : String) : Option Nat := s.toNat?
 
-def parseInput (tok : String) : Option Input :=
-  match tok.splitOn ":" with
+def parseInput (tok : String) : Option (Option Input) :=
+  if tok == "cfg" then some none else
+  (fun i => some i) <$> match tok.splitOn ":" with
   | ["en"] => some .enable
   | ["dis"] => some .disable
   | ["sel"] => some .linkSelected
@@ -44,9 +46,10 @@ def showOutput : Output → String
 def showStep (s : State) (o : List Output) : String :=
   s!"{s.comm.name}/{showBool s.link}{showBool s.t3Armed}{showBool s.delayArmed}/{s.queued.length}:" ++ "+".intercalate (o.map showOutput)
 
-def runShow (cfg : Cfg) : State → List Input → List String → List String
+def runShow (cfg : Cfg) : State → List (Option Input) → List String → List String
   | _, [], acc => acc.reverse
-  | s, i :: is, acc => let r := step cfg s i; runShow cfg r.1 is (showStep r.1 r.2 :: acc)
+  | s, none :: is, acc => runShow cfg s is (showStep s [] :: acc)
+  | s, some i :: is, acc => let r := step cfg s i; runShow cfg r.1 is (showStep r.1 r.2 :: acc)
 
 def handle : List String → String
   | ["run", role, ck, flags, cbs, inputs] =>
